@@ -154,6 +154,11 @@ func bsWorldGen(r *Run, rng *Rng, w *bsWorld, steps int, allowRm bool) {
 					w.compareWithTwin(r, "after a reorg attempt with a storage fault ("+obs+")")
 				}
 			}
+			dcBefore := g.nextDC
+			refill := rng.Chance(40) && dcBefore > 0 && !w.p.IsHalted()
+			if refill {
+				w.exec(r, fmt.Sprintf("q exitroot %d", dcBefore-1)) // the last lookup before the reorg …
+			}
 			w.exec(r, fmt.Sprintf("reorg %d", b))
 			r.Count("branch:reorg")
 			if b <= g.tip {
@@ -187,8 +192,30 @@ func bsWorldGen(r *Run, rng *Rng, w *bsWorld, steps int, allowRm bool) {
 			}
 			if !w.p.IsHalted() {
 				halted = false
-				w.compareWithTwin(r, "after reorg")
-				w.probe(r, g)
+				if !(refill && g.nextDC < dcBefore) {
+					w.compareWithTwin(r, "after reorg")
+					w.probe(r, g)
+				}
+				if refill && g.nextDC < dcBefore {
+					// the new fork grows, one deposit per block, until it holds as many deposits as the old one did: every
+					// deposit count of the old fork now names a different tree
+					for g.nextDC < dcBefore {
+						g.dcAtBlock[bn] = g.nextDC
+						g.uniq++
+						tok := fmt.Sprintf("b;%d;%d;%d;%d;%s;%d;%s;%s;%s;%d;%s;%s;%s;%s", 0, g.nextDC, rng.Intn(2), bsNet(rng), hx(rng.Bytes(20)), bsNet(rng),
+							hx(rng.Bytes(20)), bsAmount(rng), bsMeta(rng), 1700000000+bn, hx(rng.Bytes(32)), hx(rng.Bytes(20)), hx(rng.Bytes(rng.Intn(12))), b2s(rng.Bool()))
+						g.nextDC++
+						if obs := w.exec(r, fmt.Sprintf("blk %d - %s", bn, tok)); obs != "ok" {
+							r.Fail("[C01,C04,C07,C14] a well-formed block was refused: "+obs, append([]string{"new"}, w.lines...))
+							break
+						}
+						g.tip = bn
+						bn++
+					}
+					r.Count("branch:refill-after-reorg")
+					w.exec(r, fmt.Sprintf("q exitroot %d", dcBefore-1)) // … and the first one after the new fork caught up
+					w.compareWithTwin(r, "after the new fork reached the old fork's deposit count")
+				}
 			} else {
 				w.checkHaltedQueries(r)
 			}
